@@ -121,6 +121,20 @@ def run_eq(chk, case):
         chk.violation("eq:fixed_point:" + tag, "a feasible object is changed by the equality projection", case)
     if not res.is_eq_constraint_satisfied(1e-10):
         chk.violation("eq:infeasible:" + tag, "the projection does not satisfy the equality constraint", case)
+    # the outcome layout (shape) is bookkeeping: a grid layout of the same outcomes projects to the same matrices
+    if ty == "mprocess" and len(case["v"]) in (4, 6):
+        m = len(case["v"])
+        for shape in ((2, m // 2), (m // 2, 2)):
+            try:
+                g = builders[ty](case["v"], shape=shape)
+                rg = g.calc_proj_eq_constraint()
+                if not coords.close(stacked(rg), stacked(want), 1e-9):
+                    chk.violation("eq:value:%s:shape%dx%d" % (tag, shape[0], shape[1]),
+                                  "calc_proj_eq_constraint of the same outcomes laid out as a %s grid differs from the exact projection (max dev %.3g)" % (shape, float(np.max(np.abs(stacked(rg) - stacked(want))))), case)
+                if tuple(rg.shape) != tuple(shape):
+                    chk.violation("eq:shape:%s" % tag, "the projection changed the outcome layout %s -> %s" % (shape, tuple(rg.shape)), case)
+            except Exception as e:
+                chk.violation("eq:exception:%s:shape" % tag, "%r" % e, case)
     cls = type(obj)
     c = obj.composite_system
     for para in (False, True):
